@@ -546,7 +546,12 @@ def error_swallow(prog, chk):
                     ent = e2
                     break
             key = f"{strip_closures(b.path).replace('svgdx::', '')}:{k[1]}:{f.split(':')[-1]}"
-            if ent is not None:
+            if ent is not None and klass(k[2]) == "default" and ent["used"] >= ent["count"]:
+                # one more place than was reviewed where an error is *replaced by a value* (helpers spliced in, loops
+                # counted once): a new silent default, whatever idiom the others use
+                ent["used"] += 1
+                chk.bad("A6.error-swallow", key, b.where(st.bb, st.line), f"{b.short} replaces the error of {st.callee.path} by a default value ({f}: {st.detail}) at one more place than the {ent['count']} reviewed in policy/tables/error_swallow.json: a value that cannot be read yet (an unresolved reference) silently counts as the default instead of deferring the element")
+            elif ent is not None:
                 ent["used"] += 1
                 chk.ok("A6.error-swallow", key, b.where(st.bb, st.line), f"reviewed: {ent['reason']}", by="table")
             else:
